@@ -36,6 +36,9 @@ type circuitReplay struct {
 	// KeyEdits alter the verifier data BEFORE the circuit is built (template and assignment alike):
 	// a wrapper built for another key. Index 0..15 = constants/sigmas cap entry, 16 = circuit digest.
 	KeyEdits []keyEdit `json:"key_edits,omitempty"`
+	// Commit runs the circuit with the commitment-based range checker (environment switch unset; the
+	// test engine is a frontend.Committer) instead of bit decomposition.
+	Commit bool `json:"commit_checker,omitempty"`
 }
 
 type keyEdit struct {
@@ -131,6 +134,9 @@ func runCircuitReplay(c *circuitReplay, repo string) (accepted bool, msg string)
 	}
 	old, had := os.LookupEnv("USE_BIT_DECOMPOSITION_RANGE_CHECK")
 	os.Setenv("USE_BIT_DECOMPOSITION_RANGE_CHECK", "true")
+	if c.Commit {
+		os.Unsetenv("USE_BIT_DECOMPOSITION_RANGE_CHECK")
+	}
 	defer func() {
 		if had {
 			os.Setenv("USE_BIT_DECOMPOSITION_RANGE_CHECK", old)
